@@ -219,10 +219,24 @@ def run(ctx: Ctx) -> None:
     ok = len(acq) >= 1
     for a_ in acq:
         # the first thing decided about a token just read is whether it ends the line
-        nxt = [s for s, lab in a_.succ if lab != "exc"]
-        okk = len(nxt) == 1 and nxt[0].kind == "test" and ("NEWLINE" in norm(nxt[0].cond) or "endswith('\\n')" in norm(nxt[0].cond))
-        if okk and hazard:
-            okk = "endswith('\\n')" in norm(nxt[0].cond)
+        # (a test of nothing but whether there is a token at all may come first; on its "no token" side nothing is kept)
+        tv = a_.stmt.targets[0].id if isinstance(a_.stmt, ast.Assign) and len(a_.stmt.targets) == 1 and isinstance(a_.stmt.targets[0], ast.Name) else None
+        frontier = [s for s, lab in a_.succ if lab != "exc"]
+        okk = bool(frontier)
+        seen_ = set()
+        while frontier and okk:
+            x = frontier.pop()
+            if x.id in seen_:
+                continue
+            seen_.add(x.id)
+            c = norm(x.cond) if x.kind == "test" and x.cond is not None else None
+            if c is not None and ("endswith('\\n')" in c or (not hazard and "NEWLINE" in c)):
+                continue  # decided here
+            if c is not None and tv is not None and c in (tv, f"not {tv}", f"{tv} is None", f"{tv} is not None"):
+                has_tok = "T" if c in (tv, f"{tv} is not None") else "F"
+                frontier.extend(s for s, lab in x.succ if lab == has_tok)
+                continue
+            okk = False
         ok = ok and okk
     ctx.ob("R9.3", "parser:CxxParser._process_pragma_directive|stops at the line end", ok, msg="the #pragma scanner does not stop at every token that ends the line", node=pr, mod=mod)
 
@@ -250,13 +264,11 @@ def run(ctx: Ctx) -> None:
            msg=f"the text is lexed as given and {cr_enders} can end in a carriage return: with CRLF line ends doc comments detach and '\\r' ends up in doc strings and include names", node=li, mod=lex)
 
     # ---------------------------------------------------------------- R9.6
-    ctx.rule("R9.6", "line splice: the length guard in front of tokbuf[-k] admits every length >= k; only (backslash, NEWLINE) is removed", minimum=1)
-    gs = fm.splice_guards()
-    for node, k, mn, txt in gs:
-        ctx.ob("R9.6", f"lexer:LexerTokenStream._fill_tokbuf|guard of tokbuf[-{k}]", mn is not None and mn <= k,
-               msg=f"`{txt}` only looks at tokbuf[-{k}] when the buffer holds at least {mn} tokens: a backslash-newline that starts the buffer fill is not spliced", node=node, mod=lex)
-    if not gs:
-        ctx.ob("R9.6", "lexer:LexerTokenStream._fill_tokbuf|continuation detection", False, msg="no test of the token before the NEWLINE: backslash-newline is not spliced", node=fm.fn, mod=lex)
+    ctx.rule("R9.6", "line splice: a (backslash, NEWLINE) pair is removed wherever it falls in the buffer and nothing else is; the line goes on after it", minimum=2)
+    # decided by interpreting the buffer fill over every short script of raw tokens, started with an empty buffer and with
+    # one that already ends in a backslash (sa/fillmodel.py)
+    from .. import fillmodel
+    fillmodel.obligations(ctx, "R9.6", lex, set(lm.udl_start), ("line", "keep"))
 
     # ---------------------------------------------------------------- R9.7
     ctx.rule("R9.7", "trailing-comment scan re-queues every token it does not consume", minimum=3)
